@@ -25,7 +25,7 @@ func init() { core.Register("C08", checkC08) }
 
 func checkC08(e *core.Env) {
 	curEnv = e
-	e.SetRule("client-streaming handlers emitting n in {0,1,2,3,5} raw responses with nil or non-nil final status, with/without headers and trailers, client asking for headers first or not; unary handlers returning a nil response (in-process); over HTTP, clients sending 0..3 request messages to a single-request method; oracle: success => exactly one response, handler nil, message equal; n=1 and nil => success; extra requests => handler's first receive fails and the client sees non-OK; distinct = (carrier, n, final status, header/trailer use, client order)")
+	e.SetRule("client-streaming handlers emitting n in {0,1,2,3,5} raw responses with nil or non-nil final status, with/without headers and trailers, client asking for headers first or not; unary handlers returning a nil response (in-process); unary replies over HTTP that break off at every byte offset or are not messages (success only with the one complete response); over HTTP, clients sending 0..3 request messages to a single-request method; oracle: success => exactly one response, handler nil, message equal; n=1 and nil => success; extra requests => handler's first receive fails and the client sees non-OK; distinct = (carrier, n, final status, header/trailer use, client order)")
 	cs := stdCarriers()
 	defer cs.Close()
 	// the same service registered through an intercepting registry (pass-through interceptors)
@@ -294,6 +294,10 @@ func checkC08(e *core.Env) {
 			}
 		}
 	})
+
+	// a unary reply that breaks off in transit, or that is not a message at all, is no response: the call fails
+	// instead of succeeding with a message the handler never produced
+	unaryCutPhase(e, "http/unary/one-response", e.N(6, 60))
 
 	e.Cases("requests", e.N(300, 4000), func(i int, r *rand.Rand) {
 		c := []*Carrier{cs.list[1], cs.list[2], decServer, decMux}[i%4]
